@@ -709,13 +709,32 @@ class SetVal:
     def __init__(self, name: str, members: T.Optional[T.FrozenSet[int]] = None) -> None:
         self.name = name
         self.members: T.FrozenSet[int] = members if members is not None else frozenset([id(self)])   # base sets this value is the union of
+        self.declared: T.Optional[str] = None      # store whose OVERRIDDEN entries the set names by construction (set comprehension)
+
+
+class IndexMap:
+    """`{x: i for i, x in enumerate(self.S)}`: for every element of store S the index of its LAST occurrence (later keys replace earlier ones)."""
+    def __init__(self, store: str, which: str) -> None:
+        self.store = store
+        self.which = which
 
 
 EMPTY_LISTS = ('[]', 'list()', 'collections.deque()', 'deque()')
 STORE_CHAINS = ('self.pre', 'self.post', 'self._container')
 
 
+class _Reported(Exception):
+    """a violation was reported while reading a value; the rest of the slow path is not judged"""
+
+
 def _slow_path(ctx: RuleCtx, mod: Module, qn: str, fn: T.Any, slow: T.List[ast.stmt]) -> bool:
+    try:
+        return _slow_path_read(ctx, mod, qn, fn, slow)
+    except _Reported:
+        return False
+
+
+def _slow_path_read(ctx: RuleCtx, mod: Module, qn: str, fn: T.Any, slow: T.List[ast.stmt]) -> bool:
     """Symbolic reading of the slow path: every local list is a sequence of *segments* (which store it came from, in which
     order, which duplicate wins, which override sets were consulted); the statements only move segments around.  The value
     finally stored in self._container is compared with  [pre: first wins] + [container minus both sets] + [post: last wins]."""
@@ -741,7 +760,69 @@ def _slow_path(ctx: RuleCtx, mod: Module, qn: str, fn: T.Any, slow: T.List[ast.s
             return set_of(e.args[0])
         return None
 
+    def enum_source(g: ast.comprehension) -> T.Optional[T.Tuple[str, str, str]]:
+        """`for i, x in enumerate(self.S)` -> (S, i, x)."""
+        it, tg = g.iter, g.target
+        if isinstance(it, ast.Call) and norm(it.func) == 'enumerate' and len(it.args) == 1 and not it.keywords and attr_chain(it.args[0]) in STORE_CHAINS \
+                and isinstance(tg, ast.Tuple) and len(tg.elts) == 2 and all(isinstance(x, ast.Name) for x in tg.elts) and not g.is_async:
+            return attr_chain(it.args[0])[5:], tg.elts[0].id, tg.elts[1].id  # type: ignore[index,attr-defined]
+        return None
+
+    def declared_set(e: ast.SetComp) -> SetVal:
+        """`{x for x in <walk over store S> if <classifier>(x) is Dedup.OVERRIDDEN}`: the override set of S, stated instead of collected."""
+        if len(e.generators) != 1 or e.generators[0].is_async or not isinstance(e.generators[0].target, ast.Name) or norm(e.elt) != e.generators[0].target.id:
+            raise Undecided(f'{qn}: set comprehension `{short(e, 60)}` is not a plain filter of one store')
+        g = e.generators[0]
+        x = g.target.id
+        store, _ = _source(ast.For(target=g.target, iter=g.iter, body=[], orelse=[]))
+        if len(g.ifs) != 1:
+            raise Undecided(f'{qn}: set comprehension `{short(e, 60)}` does not select by one kind test')
+        at, pol = tables.canon(g.ifs[0], True)
+        if at.kind == 'cmp' and at.args[0] == 'eq' and at.args[1] in DEDUP_KINDS:
+            at = Atom('is', (at.args[2], at.args[1]))
+        if not (at.kind == 'is' and at.args[0] in (f'self._can_dedup({x})', f'type(self)._can_dedup({x})') and at.args[1] in DEDUP_KINDS and pol):
+            raise Undecided(f'{qn}: filter `{short(g.ifs[0], 60)}` of a set comprehension is outside the reference vocabulary')
+        if at.args[1] != 'Dedup.OVERRIDDEN':
+            ctx.violation(mod, qn, e, f'{store}: the override set is made of the {at.args[1]} arguments (only OVERRIDDEN arguments may suppress later/earlier duplicates)', e)
+            raise _Reported()
+        sv = SetVal('?')
+        sv.declared = store
+        return sv
+
+    def enum_seg(e: T.Any, src: T.Tuple[str, str, str]) -> T.List[Seg]:
+        """`[x for i, x in enumerate(self.S) if x not in OVR or <i is the first/last index of x in S>]`, OVR the declared override
+        set of S: every argument outside OVR is kept, of the others the first/last occurrence - the same segment a walk builds."""
+        store, i, x = src
+        if norm(e.elt) != x or len(e.generators[0].ifs) != 1:
+            raise Undecided(f'{qn}: comprehension `{short(e, 60)}` is not a plain filter of one store')
+        cond = e.generators[0].ifs[0]
+        parts = cond.values if isinstance(cond, ast.BoolOp) and isinstance(cond.op, ast.Or) else [cond]
+        sv: T.Optional[SetVal] = None
+        winner: T.Optional[str] = None
+        for part in parts:
+            at, pol = tables.canon(part, True)
+            if at.kind == 'in' and at.args[0] == x and not pol and sv is None:
+                sv = set_of(ast.parse(at.args[1], mode='eval').body)
+                if sv is not None:
+                    continue
+            if at.kind == 'cmp' and at.args[0] == 'eq' and pol and i in at.args[1:] and winner is None:
+                rhs = ast.parse(at.args[2] if at.args[1] == i else at.args[1], mode='eval').body
+                if isinstance(rhs, ast.Subscript) and isinstance(rhs.value, ast.Name) and isinstance(env.get(rhs.value.id), IndexMap) and norm(rhs.slice) == x \
+                        and env[rhs.value.id].store == store:
+                    winner = env[rhs.value.id].which
+                    continue
+                if isinstance(rhs, ast.Call) and isinstance(rhs.func, ast.Attribute) and rhs.func.attr == 'index' and attr_chain(rhs.func.value) == f'self.{store}' \
+                        and len(rhs.args) == 1 and norm(rhs.args[0]) == x and not rhs.keywords:
+                    winner = 'first'
+                    continue
+            raise Undecided(f'{qn}: filter `{short(part, 60)}` of a comprehension is outside the reference vocabulary')
+        if sv is None or winner is None or len(sv.members) != 1 or sv.declared != store:
+            raise Undecided(f'{qn}: comprehension `{short(e, 60)}` does not select occurrences by the declared override set of self.{store}')
+        return [Seg(store, 'store', winner, sv.members, next(iter(sv.members)), e)]
+
     def comp_seg(e: T.Any) -> T.List[Seg]:
+        if len(e.generators) == 1 and enum_source(e.generators[0]) is not None:
+            return enum_seg(e, enum_source(e.generators[0]))  # type: ignore[arg-type]
         if len(e.generators) != 1 or e.generators[0].is_async or not isinstance(e.generators[0].target, ast.Name) or norm(e.elt) != e.generators[0].target.id:
             raise Undecided(f'{qn}: comprehension `{short(e, 60)}` is not a plain filter of one store')
         g = e.generators[0]
@@ -811,6 +892,13 @@ def _slow_path(ctx: RuleCtx, mod: Module, qn: str, fn: T.Any, slow: T.List[ast.s
             return SetVal('?')
         if isinstance(v, ast.Set) and not v.elts:
             return SetVal('?')
+        if isinstance(v, ast.SetComp):
+            return declared_set(v)
+        if isinstance(v, ast.DictComp) and len(v.generators) == 1 and not v.generators[0].ifs:
+            src = enum_source(v.generators[0])
+            if src is not None and norm(v.key) == src[2] and norm(v.value) == src[1]:
+                return IndexMap(src[0], 'last')
+            raise Undecided(f'{qn}: `{short(v, 60)}` is not an index map of one store')
         return ListVal(seq_of(v))
 
     def store_to(t: ast.AST, val: T.Any) -> None:
